@@ -29,6 +29,14 @@ ID = "C08"
 LEVEL = "model_checking"
 
 SIGNS = {"hebbian": (1.0, -1.0), "anti": (-1.0, 1.0), "pot": (1.0, 1.0), "dep": (-1.0, -1.0)}
+# one side switched off exactly: only used for per-cell overrides (an override of exactly 0.0 is a value, not "use the default")
+SIGNS_ZERO = {"postonly": (1.0, 0.0), "preonly": (0.0, -1.0)}
+
+
+def signs_of(sign):
+    return SIGNS[sign] if sign in SIGNS else SIGNS_ZERO[sign]
+
+
 LRP, LRN = 0.5, 0.25  # |lr_post|, |lr_pre|
 TC_POST, TC_PRE, TC_Z = 4.0, 2.0, 3.0
 TRIP = dict(tc_post_fast=2.0, tc_post_slow=8.0, tc_pre_fast=3.0, tc_pre_slow=6.0, lr_post_triplet=0.125, lr_pre_triplet=0.0625)
@@ -53,21 +61,22 @@ def make_trainer_overridden(kind, sign, mode, delayed, reduction):
     trainer built with *decoy* defaults (opposite signs, swapped magnitudes and time constants, the other trace mode, the other
     delay mode, another reduction) and the overrides that make the cell behave like ``make_trainer(kind, sign, mode, delayed,
     reduction)``. Anything still read from the trainer-level default instead of the per-cell state gives a wrong update."""
-    sp, sn = SIGNS[sign]
+    sp, sn = signs_of(sign)
+    dsp, dsn = (sp or 1.0), (sn or -1.0)  # decoys are never zero
     other = "nearest" if mode == "cumulative" else "cumulative"
     decoy_red = torch.amax
     red = reduction if reduction is not None else (torch.sum if kind in ("mstdp", "mstdpet") else torch.mean)
     if kind == "stdp":
-        tr = STDP(-sp * LRN, -sn * LRP, TC_PRE, TC_POST, delayed=not delayed, trace_mode=other, batch_reduction=decoy_red)
+        tr = STDP(-dsp * LRN, -dsn * LRP, TC_PRE, TC_POST, delayed=not delayed, trace_mode=other, batch_reduction=decoy_red)
         ov = dict(lr_post=sp * LRP, lr_pre=sn * LRN, tc_post=TC_POST, tc_pre=TC_PRE, delayed=delayed, trace_mode=mode, batch_reduction=red)
     elif kind == "mstdp":
-        tr = MSTDP(-sp * LRN, -sn * LRP, TC_PRE, TC_POST, delayed=not delayed, trace_mode=other, batch_reduction=decoy_red)
+        tr = MSTDP(-dsp * LRN, -dsn * LRP, TC_PRE, TC_POST, delayed=not delayed, trace_mode=other, batch_reduction=decoy_red)
         ov = dict(lr_post=sp * LRP, lr_pre=sn * LRN, tc_post=TC_POST, tc_pre=TC_PRE, delayed=delayed, trace_mode=mode, batch_reduction=red)
     elif kind == "mstdpet":
-        tr = MSTDPET(-sp * LRN, -sn * LRP, TC_PRE, TC_POST, TC_Z * 2, trace_mode=other, batch_reduction=decoy_red)
+        tr = MSTDPET(-dsp * LRN, -dsn * LRP, TC_PRE, TC_POST, TC_Z * 2, trace_mode=other, batch_reduction=decoy_red)
         ov = dict(lr_post=sp * LRP, lr_pre=sn * LRN, tc_post=TC_POST, tc_pre=TC_PRE, tc_eligibility=TC_Z, trace_mode=mode, batch_reduction=red)
     else:
-        tr = TripletSTDP(-sp * LRN, TRIP["lr_pre_triplet"], -sn * LRP, TRIP["lr_post_triplet"], TRIP["tc_pre_fast"], TRIP["tc_pre_slow"],
+        tr = TripletSTDP(-dsp * LRN, TRIP["lr_pre_triplet"], -dsn * LRP, TRIP["lr_post_triplet"], TRIP["tc_pre_fast"], TRIP["tc_pre_slow"],
                          TRIP["tc_post_fast"], TRIP["tc_post_slow"], delayed=not delayed, trace_mode=other, batch_reduction=decoy_red)
         ov = dict(lr_post_pair=sp * LRP, lr_post_triplet=TRIP["lr_post_triplet"], lr_pre_pair=sn * LRN, lr_pre_triplet=TRIP["lr_pre_triplet"],
                   tc_post_fast=TRIP["tc_post_fast"], tc_post_slow=TRIP["tc_post_slow"], tc_pre_fast=TRIP["tc_pre_fast"], tc_pre_slow=TRIP["tc_pre_slow"],
@@ -78,7 +87,7 @@ def make_trainer_overridden(kind, sign, mode, delayed, reduction):
 def reference(kind, sign, mode, dt, pre_syn, post, K, signal=None, gamma=1.0):
     """per-sample signed contribution stream: returns (T, B, F, N) float64 = (pos - neg) before batch reduction,
     and the per-sample potentiating / depressing magnitudes"""
-    sp, sn = SIGNS[sign]
+    sp, sn = signs_of(sign)
     T, B, N, L = pre_syn.shape
     Fn = post.shape[2]
     pre_s = shifted_pre(pre_syn, K)  # (T,B,F,N,L)
@@ -501,7 +510,7 @@ def run(rep):
                             for dmode in ("frozen", "delayed"):
                                 jobs.append((history_shard, (kind, "dense", (1, 1), T1, dt, sign, mode, (dmode, 2), sp)))
         # hyper-parameters given as per-cell overrides of a trainer with decoy defaults
-        for sign in SIGNS:
+        for sign in SIGNS:  # (a learning rate of exactly 0 is not a legal value here: the trace amplitude must be non-zero)
             for mode in ("cumulative", "nearest"):
                 sp = "stepalt" if kind in ("mstdp", "mstdpet") else "pos"
                 jobs.append((history_shard, (kind, "dense", (1, 1), T1, 1.0, sign, mode, None, sp, True)))
